@@ -66,6 +66,25 @@ def random_case(rng, i, big):
     return "r%d %s" % (i, " ".join(toks))
 
 
+def nosearch_case(rng, i):
+    """the same interleavings of append / pop-front / pop-back / latest on a list WITHOUT the search array (the
+    configuration of the all-store); first token N (stripped before the case goes to the model)"""
+    toks, cur, n = ["N"], 0, rng.choice([3, 6, 12, 40])
+    for _ in range(n):
+        x = rng.random()
+        if x < 0.5:
+            cur += rng.choice([1, 1, 2, 5])
+            toks.append("p%d" % cur)
+        elif x < 0.65:
+            toks.append("f")
+        elif x < 0.8:
+            toks.append("b")
+        else:
+            toks.append("t")
+    toks += ["t", "b", "t", "f", "t"]
+    return "n%d %s" % (i, " ".join(toks))
+
+
 def pick_probe(rng, pushed):
     x = rng.random()
     if pushed and x < 0.6:
@@ -143,8 +162,10 @@ def first_diff(a, b):
 
 def run_three(fsdbh, lines):
     impl = C.run_lines(fsdbh, "vlist", lines)
-    model = C.run_lines(C.DRIVER, "vlist", lines)
-    spec = C.run_lines(C.DRIVER, "vlist-spec", lines)
+    # the token N (list without the search array) is a configuration of the implementation only: same list semantics
+    mlines = [" ".join(t for k, t in enumerate(l.split()) if not (k == 1 and t == "N")) for l in lines]
+    model = C.run_lines(C.DRIVER, "vlist", mlines)
+    spec = C.run_lines(C.DRIVER, "vlist-spec", mlines)
     if not (len(impl) == len(model) == len(spec) == len(lines)):
         raise C.CheckBroken("output length mismatch %d/%d/%d/%d" % (len(impl), len(model), len(spec), len(lines)))
     return impl, model, spec
@@ -185,6 +206,8 @@ def run(rep):
     nbig = 4 if rep.tier == "quick" else 40
     rnd = [random_case(rng, i, False) for i in range(nrand)] + [random_case(rng, nrand + i, True) for i in range(nbig)]
     cases += rnd
+    nns = 150 if rep.tier == "quick" else 2000
+    cases += [nosearch_case(rng, i) for i in range(nns)]
     impl, model, spec = run_three(fsdbh, cases)
     bad = [k for k in range(len(cases)) if impl[k] != model[k]]
     tcb = [k for k in range(len(cases)) if model[k] != spec[k]]
@@ -194,7 +217,7 @@ def run(rep):
     for k in bad[:3]:
         investigate(rep, fsdbh, cases[k], impl[k], model[k])
     # in-Coq evaluation of a seeded sample
-    sample_idx = sorted(rng.sample(range(len(cases) - nbig), 250)) + list(range(ncorpus))
+    sample_idx = sorted(rng.sample(range(len(cases) - nbig - nns), 250)) + list(range(ncorpus))
     vm = vm_crosscheck([cases[k] for k in sample_idx], [model[k] for k in sample_idx])
     distinct = len({C.case_hash(" ".join(c.split()[1:])) for c in cases if nontrivial(c)})
     steps = sum(len(c.split()) - 1 for c in cases)
